@@ -244,3 +244,53 @@ func VerifC10_Blocking_WakeUpChain() { verifWakeUpChain(0) }
 //
 //verif:harness property=C10 theory=bv tier=quick timers=off unwind=3 unwindcut=1 clock=frozen maxpaths=60000
 func VerifC10_Deadline_WakeUpChain() { verifWakeUpChain(1) }
+
+// verifReleaseWithoutCapacity: limit 2 with both tokens held, then the limit shrinks to 1 while both
+// are outstanding (what an adaptive limit does under load).  Caller W parks; the first completion
+// (once W is parked) frees NO capacity (in flight 2 -> 1, limit 1): W must stay a waiter the limiter
+// still knows about; the second completion (after the first has finished) frees capacity: W is
+// granted by it - at quiescence W is not blocked while capacity is free, and a served W owns the token.
+func verifReleaseWithoutCapacity(kind int) {
+	inner, st := verifFullLimiterN(2)
+	var lim core.Limiter
+	switch kind {
+	case 0:
+		lim = NewBlockingLimiter(inner, 0, nil)
+	case 1:
+		lim = NewDeadlineLimiter(inner, verif.TimeAt(1<<60), nil)
+	default:
+		ord := []QueueOrdering{OrderingFIFO, OrderingLIFO}[verif.Choice("ordering", 2)]
+		lim = NewQueueBlockingLimiterFromConfig(inner, QueueLimiterConfig{Ordering: ord, MaxBacklogSize: 10, MaxBacklogTimeout: time.Hour})
+	}
+	h1, ok1 := lim.Acquire(context.Background())
+	h2, ok2 := lim.Acquire(context.Background())
+	verif.Assert("setup-holds-both-tokens", ok1 && ok2 && st.GetBusyCount() == 2)
+	st.SetLimit(1)
+	var wOK bool
+	verif.SpawnAfter("w", func() {
+		l, ok := lim.Acquire(context.Background())
+		wOK = ok && l != nil
+	})
+	verif.SpawnAfter("r1", func() { h1.OnSuccess() }, "w")
+	verif.SpawnAfterDone("r2", func() { h2.OnSuccess() }, "r1")
+	verif.Parallel()
+	busy := st.GetBusyCount()
+	verif.Assert("shrunk-limit-waiter-served-by-the-release-that-frees-capacity", verif.Not(verif.And(verif.Blocked("w"), busy < 1)))
+	verif.Assert("shrunk-limit-busy-is-tokens-owned", verif.Implies(verif.Not(verif.Blocked("w")), busy == verif.B2I(wOK)))
+	verif.Reach("end")
+}
+
+// VerifC10_Blocking_ReleaseWithoutCapacity
+//
+//verif:harness property=C10 theory=bv tier=quick timers=off unwind=4 unwindcut=1 clock=frozen maxpaths=60000
+func VerifC10_Blocking_ReleaseWithoutCapacity() { verifReleaseWithoutCapacity(0) }
+
+// VerifC10_Deadline_ReleaseWithoutCapacity
+//
+//verif:harness property=C10 theory=bv tier=quick timers=off unwind=4 unwindcut=1 clock=frozen maxpaths=60000
+func VerifC10_Deadline_ReleaseWithoutCapacity() { verifReleaseWithoutCapacity(1) }
+
+// VerifC10_Queue_ReleaseWithoutCapacity
+//
+//verif:harness property=C10 theory=bv tier=quick timers=off unwind=4 unwindcut=1 clock=frozen maxpaths=60000
+func VerifC10_Queue_ReleaseWithoutCapacity() { verifReleaseWithoutCapacity(2) }
